@@ -46,12 +46,11 @@ Theorem conditional_bump_notices_write_attempt :
 Proof. exact bump_after_write. Qed.
 Print Assumptions conditional_bump_notices_write_attempt.
 
-(* [FULL] conditional bump, any state: a restart of the tractserver between stat and bump makes the bump fail *)
+(* [FULL] conditional bump, any state: a restart of the tractserver (restart_store = what step_restart does to the Store) between stat and bump makes the bump fail *)
 Theorem conditional_bump_notices_restart :
   forall st ts tk v nv e sz stamp,
     ts_stat st ts tk v = (e, sz, stamp) -> e <> cl_ErrNoSuchTract ->
-    snd (ts_setversion (fst (step_restart no_fix st ts)) ts ts tk nv (Some stamp)) = c14_ErrStampChanged \/ nv <= 1 \/
-    Cluster.Model.rget (s_reps (fst (step_restart no_fix st ts))) (ts, tk) = None.
+    snd (ts_setversion (restart_store st ts) ts ts tk nv (Some stamp)) = c14_ErrStampChanged \/ nv <= 1.
 Proof. exact bump_after_restart. Qed.
 Print Assumptions conditional_bump_notices_restart.
 
